@@ -341,7 +341,8 @@ func (self *Analyzer) listLiteralExpression(node pAst.ListLiteralExpression) ast
 				self.diagnostics = append(self.diagnostics, *err.ExpectedDiagnostic)
 			}
 			listType = ast.NewUnknownType()
-		} else if listType.Kind() == ast.AnyTypeKind {
+		} else if listType.Kind() == ast.AnyTypeKind || listType.Kind() == ast.NeverTypeKind {
+			// an element that diverges fixes no element type
 			listType = valExpression.Type()
 		}
 	}
